@@ -143,7 +143,7 @@ fn main() {
             let flags: Vec<&str> = args[7..].iter().map(|s| s.as_str()).collect();
             let (seed, n, out) = (args[3].parse().unwrap(), args[4].parse().unwrap(), args[5].as_str());
             match args[2].as_str() {
-                "progs" => sessrec::record_programs(seed, n, out, flags.contains(&"input"), flags.contains(&"trace"), flags.contains(&"warn"), &mut rep),
+                "progs" => sessrec::record_programs(seed, n, out, flags.contains(&"input"), flags.contains(&"trace"), flags.contains(&"warn"), flags.contains(&"breaks"), &mut rep),
                 "breakcont" => sessrec::record_breakcont(seed, n, out, &mut rep),
                 "flags4" => sessrec::record_flags4(seed, n, out, &mut rep),
                 "stopassign" => sessrec::record_stopassign(seed, n, out, &mut rep),
